@@ -165,6 +165,17 @@ fn main() {
             if got_clean != exp {
                 rep.mismatch(&classify(&exp, &got_clean, "win-framedata-cleanwalker", &BTreeMap::new()), json!({"symbols": sym, "instance": iname, "expected": exp, "observed": got_clean}));
             }
+            // the same frame-data record with an FPO record covering the same address: frame data is preferred, and a failing
+            // program is not rescued by the FPO record
+            let sym2 = format!("{}STACK WIN 0 1000 100 0 0 0 8 0 0 0 1\n", sym);
+            let both = Mock { instruction: 0x1010, has_gc: i.has_gc, gc: i.gc, callee: { let mut cm: BTreeMap<&'static str, u64> = BTreeMap::new(); cm.insert("esp", i.esp as u64); cm.insert("ebp", i.ebp as u64); cm.insert("eip", 0x1010); cm.insert("esi", 0x51); cm.insert("edi", 0xd1); if let Some(b) = i.ebx { cm.insert("ebx", b as u64); } cm },
+                              mem: mem_eval, caller_vals: BTreeMap::new(), caller_valid: BTreeSet::new() };
+            let got_both = observe(&sym2, both);
+            rep.evaluations += 1;
+            rep.class("framedata+fpo");
+            if got_both != exp {
+                rep.mismatch(&classify(&exp, &got_both, "win-framedata-with-fpo-record", &BTreeMap::new()), json!({"symbols": sym2, "instance": iname, "expected": exp, "observed": got_both}));
+            }
         }),
         "fpo" => for_each_case(path, "CASE", |c| {
             let cfg = &c["cfg"];
